@@ -512,8 +512,8 @@ rcp(const SIMDVector<std::complex<float>,simd_abi::avx512> &a) {
 #else
     __m512 den = _mm512_add_ps(_mm512_mul_ps(a.value_r,a.value_r),_mm512_mul_ps(a.value_i,a.value_i));
 #endif
-    out.value_r = _mm512_div_ps(out.value_r,den);
-    out.value_i = _mm512_neg_ps(_mm512_div_ps(out.value_i,den));
+    out.value_r = _mm512_div_ps(a.value_r,den);
+    out.value_i = _mm512_neg_ps(_mm512_div_ps(a.value_i,den));
     return out;
 }
 
@@ -1038,8 +1038,8 @@ rcp(const SIMDVector<std::complex<float>,simd_abi::avx> &a) {
 #else
     __m256 den = _mm256_add_ps(_mm256_mul_ps(a.value_r,a.value_r),_mm256_mul_ps(a.value_i,a.value_i));
 #endif
-    out.value_r = _mm256_div_ps(out.value_r,den);
-    out.value_i = _mm256_neg_ps(_mm256_div_ps(out.value_i,den));
+    out.value_r = _mm256_div_ps(a.value_r,den);
+    out.value_i = _mm256_neg_ps(_mm256_div_ps(a.value_i,den));
     return out;
 }
 
@@ -1556,8 +1556,8 @@ rcp(const SIMDVector<std::complex<float>,simd_abi::sse> &a) {
 #else
     __m128 den = _mm_add_ps(_mm_mul_ps(a.value_r,a.value_r),_mm_mul_ps(a.value_i,a.value_i));
 #endif
-    out.value_r = _mm_div_ps(out.value_r,den);
-    out.value_i = _mm_neg_ps(_mm_div_ps(out.value_i,den));
+    out.value_r = _mm_div_ps(a.value_r,den);
+    out.value_i = _mm_neg_ps(_mm_div_ps(a.value_i,den));
     return out;
 }
 
